@@ -155,6 +155,11 @@ func NewReader(src BlockSource, name string) (*Reader, error) {
 		return nil, err
 	}
 
+	switch r.header.HashID {
+	case SHA1ID, SHA256ID:
+	default:
+		return nil, fmt.Errorf("reftable: unknown hash ID %q", r.header.HashID)
+	}
 	r.hashSize = r.header.HashID.Size()
 	r.header.BlockSize &= (1 << 24) - 1
 
